@@ -32,11 +32,17 @@ ERRQ = "modem/ErrQuery.tla"
 BASE = np.array([-30.0, -17.0, -4.0, 3.0, 12.0])       # the caller's SNR buffer before any shift (dB, integers)
 STEPS, MAXSHIFT = [12, 36], 48                          # in-place increments; Base + 48 reaches 60 dB
 FNS = ["SER", "BER", "PER", "SE", "SE0"]
-HOWS = ["buffer", "copy", "view", "list", "scalar", "int"]
+HOWS = ["buffer", "copy", "view", "list", "scalar", "int", "intarray", "0d", "strided"]
 
 CARE = ["WellFormed", "Bijective", "Unchecked", "Accepts"]
 SNR_DB = np.arange(-30, 61, dtype=float)          # quick: 91 integer points (thorough: 364 points, see run)
-PACKETS = [1, 2, 10, 100, 1000, 10000]
+PACKETS = [1, 2, 3, 7, 10, 100, 1000, 10000, 10 ** 6]
+
+
+def typed_len(L, turn):
+    """the packet length as int / np.int64 / np.uint8 (when it fits) / np.int32, rotating"""
+    forms_ = [int, np.int64, np.int32] + ([np.uint8] if L <= 255 else [])
+    return forms_[turn % len(forms_)](L)
 REL = 1e-9
 
 
@@ -151,6 +157,46 @@ def judge(ctx, name, spec, step, obj, pr, exact=True):
             ctx.ok((name, "limit"), n=3)
     except Exception as ex:
         bad("SER", f"evaluation at very high SNR raised {type(ex).__name__}: {ex}")
+    # PER and spectral efficiency at very high SNR: 0 resp. exactly log2(M)
+    try:
+        for L in (1, 100, 10000):
+            for x in (150.0, 300.0):
+                pv, sv = float(obj.calcTheoreticalPER(x, L)), float(obj.calcTheoreticalSpectralEfficiency(x, L))
+                if not (0 <= pv <= 1e-9 and abs(sv - k) <= 1e-9 * k) or (x == 300.0 and (pv != 0.0 or sv != k)):
+                    bad("PER", f"PER(L={L}) / SE at {x:g} dB are {pv} / {sv}, expected 0 / {k}", L=L, snr_db=x)
+                    raise StopIteration
+        ctx.ok((name, "limit PER/SE"), n=12)
+    except StopIteration:
+        pass
+    except Exception as ex:
+        bad("PER", f"PER / SE at very high SNR raised {type(ex).__name__}: {ex}")
+    # other FORMS of the SNR argument (the curve is a function of the values): integer dtype, 0-d array, strided view,
+    # empty array, and 50 seeded non-grid values (float32 SNR values are not judged: the Q argument then carries float32
+    # rounding, amplified by x^2 in erfc - no exact expectation exists)
+    rs = np.random.RandomState(M * 7 + step)
+    rnd = np.sort(rs.uniform(-30, 60, size=50))
+    ints = np.arange(-30, 61)
+    big = np.full(2 * len(ints) + 1, 999.0)
+    big[1::2] = ints
+    for q, fn, col in (("SER", obj.calcTheoreticalSER, 0), ("BER", obj.calcTheoreticalBER, 1)):
+        at = ULP1 if (q == "SER" and pr["form"] == "product") else 1e-300
+        trials = [("int64 array", ints.astype(np.int64), ints), ("int8 array", ints.astype(np.int8), ints), ("strided view", big[1::2], ints),
+                  ("0-d array", np.array(7.5), 7.5), ("random values", rnd, rnd), ("column of a 2-d array", np.stack([ints, ints + 1.0], axis=1)[:, 1], ints + 1.0),
+                  ("empty array", np.zeros(0), np.zeros(0))]
+        for tn, arg, vals in trials:
+            snap = np.array(arg, copy=True)
+            try:
+                got = np.asarray(fn(arg), dtype=float)
+            except Exception as ex:
+                bad(q, f"calcTheoretical{q} of an SNR argument given as {tn} raised {type(ex).__name__}: {ex}", snr_db=tn)
+                continue
+            want = forms(pr, vals)[col]
+            if got.shape != np.shape(vals) or not close(got, want, at) or not np.array_equal(arg, snap):
+                bad(q, f"calcTheoretical{q} of an SNR argument given as {tn} differs from the curve at its values (or modified / reshaped it)", snr_db=tn)
+            elif tn == "random values" and not np.all(np.diff(got) <= 1e-12 * got[:-1] + 1e-17):
+                bad(q, f"calcTheoretical{q} increases between two of the seeded SNR values", snr_db=tn)
+            else:
+                ctx.ok((name, q, tn), n=max(1, int(np.size(vals))))
     tol = 1e-12
     if not (np.all(B <= S * (1 + tol) + ULP1) and np.all(S <= k * B * (1 + tol) + ULP1)):
         i = int(np.argmax((B > S * (1 + tol) + ULP1) | (S > k * B * (1 + tol) + ULP1)))
@@ -166,9 +212,10 @@ def judge(ctx, name, spec, step, obj, pr, exact=True):
                 snr_db=float(SNR_DB[i]), L=None)
         else:
             ctx.ok((name, "SE"), n=len(se0))
-        for L in PACKETS:
-            per = np.asarray(obj.calcTheoreticalPER(SNR_DB, L), dtype=float)
-            se = np.asarray(obj.calcTheoreticalSpectralEfficiency(SNR_DB, L), dtype=float)
+        for li, L in enumerate(PACKETS):
+            Lt = typed_len(L, li + M)
+            per = np.asarray(obj.calcTheoreticalPER(SNR_DB, Lt), dtype=float)
+            se = np.asarray(obj.calcTheoreticalSpectralEfficiency(SNR_DB, Lt), dtype=float)
             pe = per_of(ber, L)
             at = ULP1 * (L + 1)
             ok = close(per, pe, at) and close(per, per_of(B, L), at)
@@ -255,10 +302,14 @@ def run_history(job):
             continue
         j = (seed + i) % len(BASE)
         how, fn = e["how"], e["fn"]
+        if how == "strided":                    # a non-contiguous array holding the same values
+            wide = np.full(2 * len(buf) + 1, 999.0)
+            wide[1::2] = buf
         arg = {"buffer": buf, "copy": buf.copy(), "view": buf[:], "list": [float(v) for v in buf], "scalar": float(buf[j]),
-               "int": int(buf[j])}[how]
+               "int": int(buf[j]), "intarray": buf.astype(np.int64), "0d": np.array(buf[j]),
+               "strided": wide[1::2] if how == "strided" else None}[how]
         values = BASE + e["at"]                 # where TLC says the returned curve must be evaluated
-        if how in ("scalar", "int"):
+        if how in ("scalar", "int", "0d"):
             values = values[j]
         exp, at = expected_query(pr, fn, values, L)
         snap = np.array(arg, copy=True) if isinstance(arg, np.ndarray) else (list(arg) if isinstance(arg, list) else arg)
@@ -277,7 +328,7 @@ def run_history(job):
             viol.append({"step": i, "what": f"{fn}({how}) raised {type(ex).__name__}: {ex}"})
             break
         if not close(got, exp, at):
-            viol.append({"step": i, "what": f"{fn} of the {how} argument holding {np.atleast_1d(BASE + shift if how not in ('scalar', 'int') else (BASE + shift)[j]).tolist()} dB "
+            viol.append({"step": i, "what": f"{fn} of the {how} argument holding {np.atleast_1d(BASE + shift if how not in ('scalar', 'int', '0d') else (BASE + shift)[j]).tolist()} dB "
                                           f"returned {np.atleast_1d(got).tolist()}, the curve at these values is {np.atleast_1d(exp).tolist()} "
                                           f"(step {i} of the history {[x['fn'] + ':' + x['how'] for x in edges[:i + 1]]})"})
             break
@@ -348,7 +399,10 @@ def object_specs(ctx):
     specs = [dict(kind="BPSK", M=2, calls=False), dict(kind="QPSK", M=4, calls=False)]
     specs += [dict(kind="QAM", M=M, calls=False) for M in cc.QAM_ORDERS]
     for M in cc.PSK_ORDERS + ([2048, 4096] if th else []):
-        specs.append(dict(kind="PSK", M=M, calls=False, phases=[float(rng.choice([0.0, math.pi / M, 0.3])), float(rng.uniform(-7, 7))]))
+        p0 = float(rng.choice([0.0, math.pi / M, 0.3]))
+        # judged once straight after the constructor (the commonest use) and once after a setPhaseOffset call
+        specs.append(dict(kind="PSK", M=M, calls=False, phases=[p0 if M % 3 else 0.0]))
+        specs.append(dict(kind="PSK", M=M, calls=False, phases=[p0, float(rng.uniform(-7, 7))]))
     return specs
 
 
